@@ -1,9 +1,20 @@
 PROP = dict(
         pkg="c02", level="sampled",
-        rule="C02: ZSON text round trip over generated values x formatter settings x typedef scopes; JSON documents from a grammar read by both readers",
-        assumptions=[],
-        level_text="Property-based sampling (rapid).",
-        level_note="",
-        technique="property-based testing (rapid), differential testing of two readers",
-        tests=[dict(name="TestZSONRoundTrip", quick=(8, 300), thorough=(16, 3000))],
+        rule="C02: (a) generated value sequences over the whole type system x formatter settings (pretty 0/2/4, persist regexp nil/.*/^foo$) x typedef scope (per value, zsonio.Writer/FormatRecord stream, reused Formatter.Format stream) must read back identical (type bytes, value bytes, NaN=NaN; identical type pointer in the writer's context); (b) JSON texts from an RFC 8259 grammar must be read identically by zsonio.Reader and jsonio.Reader",
+        assumptions=[
+            "strings in the main stream are valid UTF-8 and in Unicode NFC (the ZSON reader normalises string values to NFC; non-NFC strings are examined in the opt-in test TestZSONNonNFC)",
+            "unions containing the null type, and null union members, are examined only in the opt-in test TestZSONNullInUnion",
+            "JSON objects have unique keys (also after NFC); lone UTF-16 surrogate escapes are not generated (RFC 8259 8.2: behaviour unpredictable); a reader may refuse a document only for a number that overflows float64, and then both readers must",
+            "colour output of the formatter (ColorDisabled=false) is not part of the round trip and is never enabled",
+            "cases that hit an open known finding are reduced (the trigger is normalised away or the value dropped) and the rest of the case is still checked; other defects that need the same trigger stay hidden until that finding is fixed",
+        ],
+        level_text="Sampled: property-based testing with rapid over generated values/settings and generated JSON texts; a differential oracle (two readers) for the JSON half, a round-trip oracle for the ZSON half.",
+        level_note="Trusted: gen (type/value generators, validated with Value.Validate), oracle.Key as identity of a value, encoding/json.Valid as the arbiter of what is valid JSON, the repo's own ZSON parser front end (syntax tree only) for classifying typedef-order failures. Not covered: coloured output, zson.Marshal/Unmarshal of Go values, decimal/128/256-bit primitives (not implemented in the repo), `super -z/-Z` CLI plumbing.",
+        technique="property-based testing (rapid): round-trip and differential oracles, root-cause classification by neutralisation",
+        tests=[
+            dict(name="TestZSONRoundTrip", quick=(8, 500), thorough=(16, 6000)),
+            dict(name="TestJSONSubset", quick=(8, 400), thorough=(16, 4000)),
+            dict(name="TestZSONNonNFC", quick=(4, 150), thorough=(8, 1500)),
+            dict(name="TestZSONNullInUnion", quick=(4, 150), thorough=(8, 1500)),
+        ],
 )
